@@ -43,6 +43,26 @@ def gen_many_objects(rng):
     return dict(f=f, ground=False, family='many-objects', lam=lam, seg=seg, wires=wires, fresh=True)
 
 
+def gen_thin_thick(rng, k):
+    """a tube (radius above 1e-4 wavelengths, the limit of the small-radius form of the kernel) carrying a thin wire (below it):
+    either listed first, the thin wire drawn from or towards the junction, in free space and with the tube standing on the ground —
+    the radius that counts for an entry is the radius of the *half* of the pulse, which at the junction differs from its owner's"""
+    f = 10 ** rng.uniform(0.8, 1.8)
+    lam = antgen.C / f
+    seg = lam / 40
+    ground = bool(k & 4)
+    z0 = 0.0 if ground else rng.uniform(-1, 1) * lam
+    x0, y0 = rng.uniform(-1, 1) * lam, rng.uniform(-1, 1) * lam
+    top = [x0, y0, z0 + 9 * seg]
+    far = [x0 + 6 * seg * 0.8, y0 + 6 * seg * 0.6, z0 + 9 * seg]
+    tube = dict(nseg=9, p0=[x0, y0, z0], p1=top, r=lam * rng.uniform(0.0015, 0.003))
+    thin = dict(nseg=6, p0=top, p1=far, r=lam * 10 ** rng.uniform(-5.5, -4.3))
+    if k & 2:
+        thin['p0'], thin['p1'] = thin['p1'], thin['p0']
+    wires = [tube, thin] if k & 1 else [thin, tube]
+    return dict(f=f, ground=ground, family='thin-thick', lam=lam, seg=seg, wires=wires, fresh=True)
+
+
 def evaluate(d, ant):
     """returns (algo_bad, spec_bad, stats)"""
     m = antgen.build(ant)
@@ -103,6 +123,7 @@ def replay(rp):
 
 def run(ck):
     ck.proof_side()
+    ck.cov['further_clauses'] = 'eight tube + thin-wire structures per run (radius above / below 1e-4 wavelengths, either listed first, thin wire drawn either way, free space and ground)'
     d = ck.get_driver()
     rng = ck.rng
     n = 40 if ck.tier == 'quick' else 500
@@ -127,6 +148,21 @@ def run(ck):
         ck.count('threshold_ambiguous_entries', st['amb'])
         if s:
             viol.append(dict(kind='entry', ant=ant, observed=s))
+        elif a:
+            dis.append(dict(ant=ant, why=a))
+    for k in range(8):
+        ant = gen_thin_thick(rng, k)
+        try:
+            a, s_, st = evaluate(d, ant)
+        except Exception as e:
+            dis.append(dict(ant=ant, why='evaluation raised %s: %s' % (type(e).__name__, e)))
+            continue
+        progs += st['far']
+        worst = max(worst, st['worst_spec'])
+        ck.case(('thin-thick', k), st['far'] > 0)
+        ck.count('family_thin-thick')
+        if s_:
+            viol.append(dict(kind='entry', ant=ant, observed=s_))
         elif a:
             dis.append(dict(ant=ant, why=a))
     # a model written with integer coordinates through the API (inverted L in free space, vertical on the ground)
